@@ -59,8 +59,7 @@ type sliceTypeFieldTextDecoder struct {
 func (d *sliceTypeFieldTextDecoder) Decode(req *protocol.Request, params param.Params, reqValue reflect.Value) error {
 	var err error
 	var texts []string
-	// the declared default is the field's default whichever of its tags are skipped ("-")
-	defaultValue := declaredDefault(d.tagInfos)
+	var defaultValue string
 	var bindRawBody bool
 	var isDefault bool
 	for _, tagInfo := range d.tagInfos {
